@@ -3,6 +3,7 @@ From Coq Require Import Reals ZArith String List Lra.
 From Verif.Sem Require Import Field Val RInst RLemmas.
 From Verif.C04 Require Import SemExt Vec Spec ProofsTrig ProofsGeom ProofsSpec.
 From Run Require Import GenUtils GenBeamline TieC04 TieBeamline.
+Import ListNotations.
 Open Scope R_scope.
 
 Section P.
@@ -29,7 +30,73 @@ Theorem C07_equivariant_two_theta : forall (a c a' c' : V3) sa sc sa' sc',
     is_qty h mn (two_theta O (vvec a sa d_m) (vvec c sc d_m)) p 1 d_rad DF64 /\
     is_qty h mn (two_theta O (vvec a' sa' d_m) (vvec c' sc' d_m)) p 1 d_rad DF64.
 Proof using. exact (equivariant_two_theta h mn). Qed.
+(* operand layouts: [ds]/[ds'] say whether the dims of scattered_beam are among those of the wavelength (in-place
+   accumulation) or not (broadcasting product); same physical operands in any units and any two layouts give the
+   same physical result, in the documented unit and in the dtype of the wavelength *)
+Theorem C07_layout_independent_drop_due_to_gravity : forall ds ds' L sL l sl dl (g : V3) sg L' sL' l' sl' (g' : V3) sg',
+  sL > 0 -> sg > 0 -> sL' > 0 -> sg' > 0 -> is_float dl = true ->
+  L * sL = L' * sL' -> l * sl = l' * sl' -> vscal sg g = vscal sg' g' ->
+  exists p,
+    is_qty h mn (p_drop_due_to_gravity O ds (vnum L sL d_m DF64) (vnum l sl d_m dl) (vvec g sg d_mps2)) p sL d_m dl /\
+    is_qty h mn (p_drop_due_to_gravity O ds' (vnum L' sL' d_m DF64) (vnum l' sl' d_m dl) (vvec g' sg' d_mps2)) p sL' d_m dl.
+Proof using Hh Hm. exact (layout_independent_drop_due_to_gravity h mn Hh Hm). Qed.
+
+Theorem C07_layout_independent_yz_plane : forall ds ds' (b1 b2 g b1' b2' g' : V3) s1 s2 sg s1' s2' sg' l sl l' sl' dl,
+  s1 > 0 -> s2 > 0 -> sg > 0 -> s1' > 0 -> s2' > 0 -> sg' > 0 -> is_float dl = true ->
+  thr <= vnorm (zproj b1 g) -> 0 < vnorm g -> Rabs (vdot g b1) <= thr * vnorm g ->
+  thr <= vnorm (zproj b1' g') -> 0 < vnorm g' -> Rabs (vdot g' b1') <= thr * vnorm g' ->
+  vscal s1 b1 = vscal s1' b1' -> vscal s2 b2 = vscal s2' b2' -> vscal sg g = vscal sg' g' -> l * sl = l' * sl' ->
+  exists p,
+    is_qty h mn (scattering_angle_in_yz_plane O ds (vvec b1 s1 d_m) (vvec b2 s2 d_m) (vnum l sl d_m dl) (vvec g sg d_mps2)) p 1 d_rad dl /\
+    is_qty h mn (scattering_angle_in_yz_plane O ds' (vvec b1' s1' d_m) (vvec b2' s2' d_m) (vnum l' sl' d_m dl) (vvec g' sg' d_mps2)) p 1 d_rad dl.
+Proof using Hh Hm. exact (layout_independent_yz_plane h mn Hh Hm). Qed.
+
+Theorem C07_layout_independent_orthogonal : forall ds ds' (b1 b2 g b1' b2' g' : V3) s1 s2 sg s1' s2' sg' l sl l' sl' dl,
+  s1 > 0 -> s2 > 0 -> sg > 0 -> s1' > 0 -> s2' > 0 -> sg' > 0 -> is_float dl = true ->
+  thr <= vnorm (zproj b1 g) -> 0 < vnorm g -> vdot g b1 = 0 ->
+  thr <= vnorm (zproj b1' g') -> 0 < vnorm g' -> vdot g' b1' = 0 ->
+  0 < vnorm (raised (vscal s2 b2) (vscal sg g) (drop h mn (vscal s2 b2) (vscal sg g) (l * sl))) ->
+  vscal s1 b1 = vscal s1' b1' -> vscal s2 b2 = vscal s2' b2' -> vscal sg g = vscal sg' g' -> l * sl = l' * sl' ->
+  exists v1 v2 w1 w2 p1 p2,
+    p_scattering_angles_with_gravity_orthogonal_coords O ds (vvec b1 s1 d_m) (vvec b2 s2 d_m) (vnum l sl d_m dl) (vvec g sg d_mps2)
+    = VDict O [("two_theta", v1); ("phi", v2)]%string /\
+    p_scattering_angles_with_gravity_orthogonal_coords O ds' (vvec b1' s1' d_m) (vvec b2' s2' d_m) (vnum l' sl' d_m dl) (vvec g' sg' d_mps2)
+    = VDict O [("two_theta", w1); ("phi", w2)]%string /\
+    is_qty h mn v1 p1 1 d_rad dl /\ is_qty h mn w1 p1 1 d_rad dl /\
+    is_qty h mn v2 p2 1 d_rad dl /\ is_qty h mn w2 p2 1 d_rad dl.
+Proof using Hh Hm. exact (layout_independent_orthogonal h mn Hh Hm). Qed.
 End P.
+
+(* the hypotheses of the layout theorems are satisfiable: horizontal beam along z, gravity along -y, detector up and
+   downstream (the witnesses of C04), the second call with the beams in mm instead of m and the other layout *)
+Example C07_layout_nonvacuous : forall h mn l, h > 0 -> mn > 0 ->
+  thr <= vnorm (zproj w_b1 w_g) /\ 0 < vnorm w_g /\ vdot w_g w_b1 = 0 /\ Rabs (vdot w_g w_b1) <= thr * vnorm w_g /\
+  thr <= vnorm (zproj (vscal 1000 w_b1) w_g) /\ vdot w_g (vscal 1000 w_b1) = 0 /\
+  vscal 1 w_b1 = vscal (1 / 1000) (vscal 1000 w_b1) /\
+  0 < vnorm (raised (vscal 1 w_b2) (vscal 1 w_g) (drop h mn (vscal 1 w_b2) (vscal 1 w_g) l)).
+Proof.
+  intros h mn l Hh Hm.
+  assert (Hg : 0 < vnorm w_g) by (rewrite w_g_norm; lra).
+  assert (Hp : vdot w_g w_b1 = 0) by (unfold vdot, w_g, w_b1; cbn [vx vy vz]; ring).
+  assert (Hp' : vdot w_g (vscal 1000 w_b1) = 0) by (unfold vdot, vscal, w_g, w_b1; cbn [vx vy vz]; ring).
+  repeat split; try assumption.
+  - rewrite zproj_horizontal by assumption. unfold vnorm, w_b1, thr; cbn [vx vy vz].
+    replace (0 * 0 + 0 * 0 + 1 * 1) with 1 by ring. rewrite sqrt_1. lra.
+  - rewrite Hp, Rabs_R0. unfold thr. nra.
+  - rewrite zproj_horizontal by assumption. unfold vnorm, vscal, w_b1, thr; cbn [vx vy vz].
+    replace (1000 * 0 * (1000 * 0) + 1000 * 0 * (1000 * 0) + 1000 * 1 * (1000 * 1)) with (1000 * 1000) by ring.
+    rewrite sqrt_square by lra. lra.
+  - unfold vscal, w_b1; cbn [vx vy vz]. f_equal; field.
+  - rewrite !vscal_one.
+    apply raised_nonzero_above; try assumption.
+    + apply vnorm_pos_iff. unfold vsq, w_b2; cbn [vx vy vz]. lra.
+    + rewrite w_ey. unfold vdot, w_b2; cbn [vx vy vz]. lra.
+    + unfold drop. apply delta_nonneg; try assumption. apply vnorm_nonneg.
+Qed.
+
 
 Print Assumptions C07_equivariant_drop_due_to_gravity.
 Print Assumptions C07_equivariant_two_theta.
+Print Assumptions C07_layout_independent_drop_due_to_gravity.
+Print Assumptions C07_layout_independent_yz_plane.
+Print Assumptions C07_layout_independent_orthogonal.
